@@ -1,3 +1,6 @@
+#ifndef TFIX
+#define TFIX 1
+#endif
 int ghost_k, g_count, g_T, g_me, g_cnt, g_bad, g_last, g_phase, g_ninit, g_nfin;
 void h_stripe(void) { int a, b; stripe(a, b, TFIX); }
 void h_serial(void) { int t; serial_execute(t); }
